@@ -171,6 +171,14 @@ theorem oracle_accepts_every_order (hN : NumOrd N) (q : Query ν) (hq : wf q = t
   rw [validClause_run N hN q gs gs' hp hk hh]
   rfl
 
+/-- … and only legal outcomes: a delivery the oracle accepts is the LIMIT-prefix of the stable
+sort of *some* arrangement of the candidate rows (the arrangement stands for the pre-sort order
+the aggregator's map happened to yield).  No assumption on the order of numbers is needed. -/
+theorem oracle_accepts_only_legal (q : Query ν) (gs : List (Group ν)) (hk : (gs.map (·.key)).Nodup)
+    (out : List (Spec.SRow ν)) (hv : Spec.valid N q gs out = true) :
+    ∃ L, L.Perm (Spec.candidates N q gs) ∧ applyLimit q.limit (sortBy (Spec.specLess N q) L) = out :=
+  valid_only_legal N q gs hk out hv
+
 end
 
 /-! ### non-vacuity: exact integer arithmetic -/
